@@ -22,6 +22,7 @@ type genProfile struct {
 	maxN           int
 	multiTarget    bool
 	fOnly          bool
+	impatient      bool // one ph / vote op in six is made by a caller that gives up at a generated context poll
 	nilRounds      bool
 	stallFirst     bool // half of the cases begin with a stalled consumer
 	concVoting     bool // concurrent groups: mostly overlapping multi-target votes at the voting round
@@ -257,6 +258,9 @@ func genOp(t *rapid.T, cfg simCfg, p genProfile, depth int) Op {
 		}
 	case "time":
 		op.N = rapid.IntRange(1, 50).Draw(t, "ticks")
+	}
+	if p.impatient && (k == "ph" || k == "vote") && rapid.IntRange(0, 5).Draw(t, "impatient") == 0 {
+		op.CA = rapid.IntRange(1, 12).Draw(t, "cancel-at-poll")
 	}
 	return op
 }
